@@ -275,11 +275,13 @@ class Splitter:
                 start_line = self._current_line
                 try:
                     # Start new block parsing
-                    if m_val.startswith("@comment"):
+                    #   (exact match: e.g. `@commentary` is an entry type, not a comment)
+                    block_type = m_val[1:].strip()
+                    if block_type == "comment":
                         library.add(self._handle_explicit_comment())
-                    elif m_val.startswith("@preamble"):
+                    elif block_type == "preamble":
                         library.add(self._handle_preamble())
-                    elif m_val.startswith("@string"):
+                    elif block_type == "string":
                         library.add(self._handle_string(m))
                     else:
                         library.add(self._handle_entry(m, m_val))
